@@ -9,6 +9,7 @@ package main
 
 import (
 	"context"
+	"encoding/json"
 	"flag"
 	"fmt"
 	"os"
@@ -289,6 +290,18 @@ func runProbe() {
 		fmt.Println("PROBE-CRASH in a background goroutine:", msg)
 		os.Exit(2)
 	}
+	// the configuration in effect after servitor's own start-up code has run
+	eff := map[string]any{"hook": config.Parsed.Media.Hook, "feeds": config.Parsed.Feeds, "primary": config.Parsed.Style.Colors.Primary, "error": config.Parsed.Style.Colors.Error,
+		"highlight": config.Parsed.Style.Colors.Highlight, "code": config.Parsed.Style.Colors.Code, "preload": config.Parsed.Network.Context,
+		"timeout_ns": int64(config.Parsed.Network.Timeout), "cache": config.Parsed.Network.CacheSize}
+	eb, _ := json.Marshal(eff)
+	fmt.Println("PROBE-CONFIG " + string(eb))
+	for _, c := range []string{config.Parsed.Style.Colors.Primary, config.Parsed.Style.Colors.Error, config.Parsed.Style.Colors.Highlight, config.Parsed.Style.Colors.Code} {
+		if !wellFormedColour(c) {
+			fmt.Printf("PROBE-BAD-COLOUR %q\n", c)
+			os.Exit(5)
+		}
+	}
 	net := probeWorld()
 	net.W.Install()
 	d := uidrv.New(60, 20)
@@ -333,6 +346,126 @@ func runProbe() {
 	fmt.Println("PROBE-OK")
 }
 
+// wellFormedColour: three decimal components 0..255 separated by semicolons.
+func wellFormedColour(c string) bool {
+	parts := strings.Split(c, ";")
+	if len(parts) != 3 {
+		return false
+	}
+	for _, p := range parts {
+		if p == "" || len(p) > 3 || (len(p) > 1 && p[0] == '0') {
+			return false
+		}
+		v := 0
+		for _, ch := range p {
+			if ch < '0' || ch > '9' {
+				return false
+			}
+			v = v*10 + int(ch-'0')
+		}
+		if v > 255 {
+			return false
+		}
+	}
+	return true
+}
+
+// probeEnv starts the probe with exactly the given configuration-related environment.
+func probeEnv(env []string) (exit int, out string) {
+	self, _ := os.Executable()
+	ctx, cancel := context.WithTimeout(context.Background(), 60*time.Second)
+	defer cancel()
+	cmd := exec.CommandContext(ctx, self, "-probe")
+	for _, kv := range os.Environ() {
+		if !strings.HasPrefix(kv, "XDG_CONFIG_HOME=") && !strings.HasPrefix(kv, "HOME=") {
+			cmd.Env = append(cmd.Env, kv)
+		}
+	}
+	cmd.Env = append(cmd.Env, env...)
+	cmd.Env = append(cmd.Env, "GOMAXPROCS=2")
+	cmd.WaitDelay = time.Second
+	b, err := cmd.CombinedOutput()
+	if err == nil {
+		return 0, string(b)
+	}
+	if ctx.Err() != nil {
+		return 4, string(b) + "\nPROBE-HANG: killed after 60 s"
+	}
+	if ee, ok := err.(*exec.ExitError); ok {
+		return ee.ExitCode(), string(b)
+	}
+	return -1, err.Error()
+}
+
+func effective(out string) string {
+	for _, l := range strings.Split(out, "\n") {
+		if strings.HasPrefix(l, "PROBE-CONFIG ") {
+			return strings.TrimPrefix(l, "PROBE-CONFIG ")
+		}
+	}
+	return ""
+}
+
+// environmentsPart: where the file is looked for must not change what a missing file means.
+// Five start-up environments; the configuration in effect (after servitor's own init) must
+// be the defaults in the four without a file, well-formed, and the file found through
+// HOME must take effect.
+func environmentsPart(r *ev.Report, dir string) {
+	mk := func(name string, withFile string) string {
+		d := filepath.Join(dir, "env-"+name)
+		os.MkdirAll(d, 0o755)
+		return d
+	}
+	xdgEmpty := mk("xdg-empty-file", "")
+	os.MkdirAll(filepath.Join(xdgEmpty, "servitor"), 0o755)
+	os.WriteFile(filepath.Join(xdgEmpty, "servitor", "config.toml"), nil, 0o644)
+	xdgNone := mk("xdg-no-file", "")
+	homeNone := mk("home-no-file", "")
+	homeFile := mk("home-with-file", "")
+	os.MkdirAll(filepath.Join(homeFile, ".config", "servitor"), 0o755)
+	os.WriteFile(filepath.Join(homeFile, ".config", "servitor", "config.toml"), []byte("[network]\npreload_amount = 3\n"), 0o644)
+	type envCase struct {
+		Name string
+		Env  []string
+	}
+	cases := []envCase{
+		{"xdg-empty-file", []string{"XDG_CONFIG_HOME=" + xdgEmpty, "HOME=" + homeNone}},
+		{"xdg-no-file", []string{"XDG_CONFIG_HOME=" + xdgNone, "HOME=" + homeNone}},
+		{"home-no-file", []string{"HOME=" + homeNone}},
+		{"neither-xdg-nor-home", nil},
+		{"xdg-set-but-empty-string", []string{"XDG_CONFIG_HOME=", "HOME="}},
+		{"home-with-file", []string{"HOME=" + homeFile}},
+	}
+	reference := ""
+	for _, c := range cases {
+		code, out := probeEnv(c.Env)
+		r.Eval(1)
+		if code != 0 || !strings.Contains(out, "PROBE-OK") {
+			what := "crash"
+			if strings.Contains(out, "PROBE-BAD-COLOUR") {
+				what = "malformed-colour"
+			}
+			r.Violation("config:environment:"+what+":"+c.Name, map[string]any{"environment": c, "exit": code, "output": tail(out, 800),
+				"msg": "start-up without a usable configuration file does not yield a safe configuration"})
+			continue
+		}
+		eff := effective(out)
+		if c.Name == "home-with-file" {
+			if !strings.Contains(eff, `"preload":3`) {
+				r.Violation("config:environment:file-ignored:"+c.Name, map[string]any{"environment": c, "effective": eff, "msg": "the file under $HOME/.config/servitor was not used"})
+			}
+			continue
+		}
+		if reference == "" {
+			reference = eff
+		} else if eff != reference {
+			r.Violation("config:environment:defaults-differ:"+c.Name, map[string]any{"environment": c, "effective": eff, "with_an_empty_file": reference,
+				"msg": "a missing file must fall back to the built-in defaults, the same ones an empty file gives"})
+		}
+	}
+	r.Extra["startup_environments"] = len(cases)
+}
+
 func probe(dir string, n int, text string) (exit int, out string) {
 	home := filepath.Join(dir, fmt.Sprintf("p%d", n))
 	os.MkdirAll(filepath.Join(home, "servitor"), 0o755)
@@ -367,6 +500,7 @@ func main() {
 		"(i) every string '#'+6 hex digits (quick: lower case, 16^6; thorough: both cases, 22^6) and every string of length <=7 over {#,0,f,F,g,+,-,space,x,_,é} through the real colour converter, against the arithmetic value; "+
 			"(ii) TOML files over the documented keys: full product of hook(7) x cache_size(7) x preload_amount(8) x timeout_seconds(8) x feeds(5) with typical colours, full product of the four colours (6^4), and every single and pairwise combination with unknown keys/tables and a syntax error, "+
 			"through the real parser against a reference acceptance predicate (reject / accept / range-checked either way); (iii) every accepted configuration of (ii)'s first product with at most two keys set (all singles and all pairs) starts a probe process driving the real UI (open, move, select, follow and open links, history, creators, every configured feed and an unknown one, resize); "+
+			"(iv) six start-up environments (file empty / absent under XDG_CONFIG_HOME, only HOME, neither variable, both empty, file under $HOME/.config): the configuration in effect after servitor's own init must be the same defaults, with well-formed colours, and the HOME file must be used; "+
 			"distinct_nontrivial = configuration files that deviate from the defaults")
 	dir, _ := os.MkdirTemp(os.Getenv("VERIF_SCRATCH"), "c19")
 	defer os.RemoveAll(dir)
@@ -447,6 +581,8 @@ func main() {
 			code, out := probe(dir, p.n, p.text)
 			atomic.AddInt64(&done, 1)
 			switch {
+			case code == 5:
+				r.Violation("config:accepted-with-malformed-colour", map[string]any{"case": cfgCase{p.text, "accepted"}, "output": tail(out, 400), "msg": "an accepted configuration yields a colour code that is not three components 0..255"})
 			case code == 0 && strings.Contains(out, "PROBE-OK"):
 			case code == 1 && !strings.Contains(out, "PROBE-") && !strings.Contains(out, "panic"):
 				// rejected at start-up with a diagnostic by the real init (in-process load accepted it: cannot happen, but it is safe)
@@ -466,6 +602,7 @@ func main() {
 			runProduct([]int{x, i}, false)
 		}
 	}
+	environmentsPart(r, dir)
 	r.Sample(cfgCase{"[media]\nhook = []\n[network]\ncache_size = 0\n", "range"})
 	r.Sample(cfgCase{"[style.colors]\nprimary = \"#GGGGGG\"\n", "reject"})
 	// missing file, directory in place of the file, defaults
